@@ -51,6 +51,9 @@ fn fixed(tier: Tier) -> Vec<Vec<u8>> {
         for e in 0..3u8 {
             for op in 0..2u8 {
                 v.push(vec![0xEE, 1, pti, e, op, 0, 0xEE]);
+                // wide rows (>= 32768 pixels) and an image of more than 2^20 pixels, 8-bit (chunk 0) and 16-bit (chunk 1) types
+                v.push(vec![0xEE, 4, pti, e, op, 0, 0xEE]);
+                v.push(vec![0xEE, 4, pti, e, op, 1, 0xEE]);
                 for chunk in 0..4u8 {
                     v.push(vec![0xEE, 2, pti, e, op, chunk, 0xEE]);
                 }
@@ -512,6 +515,44 @@ fn enumerate(tape: &[u8], ctx: &Ctx) -> Outcome {
             run_layouts(&mut o, pt, ext, divide, &pairs, &layouts, 1, ctx);
             o.label(format!("enum16-random:{}:{}:{}", img::pt_name(pt), opname, img::ext_name(ext)));
         }
+        4 => {
+            let pt = if chunk == 0 { [PixelType::U8x2, PixelType::U8x4][pti] } else { [PixelType::U16x2, PixelType::U16x4][pti] };
+            o = Outcome::new(format!(
+                "wide rows (32775 and 65539 pixels) and a 1031x1100 image of SplitMix pairs with runs of opaque / transparent pixels: {} {} on {}, 4 entry points",
+                img::pt_name(pt),
+                opname,
+                img::ext_name(ext)
+            ));
+            o.evals = 0;
+            let vmax = if chunk == 0 { 255u32 } else { 65535 };
+            let mut rng = Mix::new(0xB16 + pti as u64 * 31 + chunk as u64);
+            let mut pairs = Vec::with_capacity(1031 * 1100);
+            let mut run = 0u32;
+            let mut kind = 0u64;
+            for _ in 0..1031 * 1100 {
+                if run == 0 {
+                    run = 1 + rng.below(40) as u32;
+                    kind = rng.below(5);
+                }
+                run -= 1;
+                let r = rng.next();
+                let c = (r as u32) & vmax;
+                let a = match kind {
+                    0 => 0,
+                    1 => vmax,
+                    2 => vmax - 1 - ((r >> 20) as u32 & (vmax >> 8).max(1)),
+                    _ => ((r >> 32) as u32) & vmax,
+                };
+                pairs.push((if kind == 0 && r & 1 == 0 { 0 } else { c }, a));
+            }
+            let layouts = [
+                Layout { width: 1031, shift: 0 },
+                Layout { width: 32775, shift: 3 },
+                Layout { width: 65539, shift: 0 },
+            ];
+            run_layouts(&mut o, pt, ext, divide, &pairs, &layouts, usize::MAX, ctx);
+            o.label(format!("enum-wide:{}:{}:{}", img::pt_name(pt), opname, img::ext_name(ext)));
+        }
         _ => {
             let pt = [PixelType::U16x2, PixelType::U16x4][pti];
             o = Outcome::new(format!(
@@ -634,10 +675,12 @@ fn check_floats(t: &mut Tape, _ctx: &Ctx) -> Outcome {
     let ext = t.pick(&img::exts());
     let divide = t.bool();
     let variant = VARIANTS[t.below(4) as usize];
-    let w = t.range(1, 40);
+    let w = if t.chance(8) { 32775 } else { t.range(1, 40) };
     let seed = t.u32() as u64;
     let nch = img::channels(pt);
     let h = (4096 / w).max(1);
+    // start of the buffers relative to an 8-byte boundary (a multiple of the 4-byte pixel alignment)
+    let off = [0usize, 0, 4, 8, 12, 4][t.below(6) as usize];
     let mut o = Outcome::new(format!(
         "{} {} {:?} on {}: {}x{} float pairs seed {:x}",
         img::pt_name(pt),
@@ -651,12 +694,12 @@ fn check_floats(t: &mut Tape, _ctx: &Ctx) -> Outcome {
     o.evals = 0;
     let mut rng = Mix::new(seed);
     let npx = (w * h) as usize;
-    let mut src = Buf::new(npx * nch * 4);
+    let mut src = Buf::with_offset(npx * nch * 4, off);
     for i in 0..npx * nch {
         let v = gen_f32(&mut rng);
         src.bytes_mut()[4 * i..4 * i + 4].copy_from_slice(&v.to_ne_bytes());
     }
-    let mut dst = Buf::new(src.len());
+    let mut dst = Buf::with_offset(src.len(), off);
     dst.fill(0x5A);
     match call(ext, divide, variant, pt, w, h, src.bytes(), dst.bytes_mut()) {
         Err(p) => {
@@ -668,6 +711,9 @@ fn check_floats(t: &mut Tape, _ctx: &Ctx) -> Outcome {
             return o;
         }
         Ok(Ok(())) => {}
+    }
+    if off != 0 {
+        o.label("float:buffers-not-16-byte-aligned");
     }
     let get = |b: &[u8], i: usize| f32::from_ne_bytes(b[4 * i..4 * i + 4].try_into().unwrap());
     let mut out_of_domain = 0u64;
@@ -801,7 +847,8 @@ fn check_random_int(t: &mut Tape, ctx: &Ctx) -> Outcome {
     let w = t.range(1, 70);
     let h = t.range(1, 9);
     let seed = t.u32() as u64;
-    let class = t.pick(&[1u8, 2, 6, 3, 8]);
+    let class = t.pick(&[1u8, 2, 6, 3, 8, 10, 10]);
+    let off = [0usize, 0, 2, 4, 6, 1, 3][t.below(7) as usize];
     let mut o = Outcome::new(format!(
         "{} {} on {}: {}x{} content class {} seed {:x}, all 4 entry points",
         img::pt_name(pt),
@@ -813,10 +860,15 @@ fn check_random_int(t: &mut Tape, ctx: &Ctx) -> Outcome {
         seed
     ));
     o.evals = 0;
-    let src = img::make_image(pt, w, h, img::Content { class, seed }, img::Placement::Heap);
+    let src0 = img::make_image(pt, w, h, img::Content { class, seed }, img::Placement::Heap);
+    // buffer start aligned for the pixel type only
+    let a = if img::comp(pt) == Comp::U16 { 2 } else { 1 };
+    let off = off / a * a;
+    let mut src = Buf::with_offset(src0.len(), off);
+    src.bytes_mut().copy_from_slice(src0.bytes());
     let mut first: Option<Buf> = None;
     for &variant in &VARIANTS {
-        let mut dst = Buf::new(src.len());
+        let mut dst = Buf::with_offset(src.len(), off);
         dst.fill(0x5A);
         match call(ext, divide, variant, pt, w, h, src.bytes(), dst.bytes_mut()) {
             Err(p) => {
@@ -865,7 +917,7 @@ fn check_random_int(t: &mut Tape, ctx: &Ctx) -> Outcome {
 
 fn check(tape: &[u8], ctx: &Ctx) -> Outcome {
     match tape.first() {
-        Some(0xEE) if tape.len() == 7 && tape[6] == 0xEE && tape[1] <= 3 => return enumerate(tape, ctx),
+        Some(0xEE) if tape.len() == 7 && tape[6] == 0xEE && tape[1] <= 4 => return enumerate(tape, ctx),
         Some(0xED) if tape.len() == 13 => return check_literal(tape, ctx),
         _ => {}
     }
